@@ -141,48 +141,55 @@ class SymBool(object):
         return 'SymBool(%s)' % (self.e,)
 
 
+_K_TRUE, _K_FALSE, _K_EQ, _K_DISTINCT, _K_AND, _K_OR, _K_NOT = (z3.Z3_OP_TRUE, z3.Z3_OP_FALSE, z3.Z3_OP_EQ, z3.Z3_OP_DISTINCT,
+                                                                  z3.Z3_OP_AND, z3.Z3_OP_OR, z3.Z3_OP_NOT)
+
+
+def _kind(e):
+    """decl kind of an application (one C call instead of one per z3.is_* predicate)"""
+    try:
+        return z3.Z3_get_decl_kind(e.ctx_ref(), z3.Z3_get_app_decl(e.ctx_ref(), e.as_ast()))
+    except Exception:
+        return -1
+
+
 def mkbool(e):
     """z3 Bool -> python bool if trivially constant else SymBool.  Only cheap structural checks here: a full
     z3.simplify of every comparison dominated run time on large terms (the solver simplifies anyway)."""
-    if z3.is_true(e):
+    k = _kind(e)
+    if k == _K_TRUE:
         return True
-    if z3.is_false(e):
+    if k == _K_FALSE:
         return False
-    if z3.is_eq(e):
+    if k == _K_EQ or (k == _K_DISTINCT and e.num_args() == 2):
         a, b = e.arg(0), e.arg(1)
         if a.eq(b):
-            return True
+            return k == _K_EQ
         if (z3.is_bv_value(a) and z3.is_bv_value(b)) or (z3.is_int_value(a) and z3.is_int_value(b)):
-            return a.as_long() == b.as_long()
-    elif z3.is_distinct(e) and e.num_args() == 2:
-        a, b = e.arg(0), e.arg(1)
-        if a.eq(b):
-            return False
-        if (z3.is_bv_value(a) and z3.is_bv_value(b)) or (z3.is_int_value(a) and z3.is_int_value(b)):
-            return a.as_long() != b.as_long()
-    elif z3.is_and(e) or z3.is_or(e):
-        # drop constant children cheaply
+            return (a.as_long() == b.as_long()) == (k == _K_EQ)
+    elif k == _K_AND or k == _K_OR:
         kids = e.children()
-        isand = z3.is_and(e)
+        isand = k == _K_AND
         keep = []
-        for k in kids:
-            if z3.is_true(k):
+        for c in kids:
+            kc = _kind(c)
+            if kc == _K_TRUE:
                 if not isand:
                     return True
-            elif z3.is_false(k):
+            elif kc == _K_FALSE:
                 if isand:
                     return False
             else:
-                keep.append(k)
+                keep.append(c)
         if not keep:
             return isand
         if len(keep) != len(kids):
             e = keep[0] if len(keep) == 1 else (z3.And(*keep) if isand else z3.Or(*keep))
-    elif z3.is_not(e):
-        k = e.arg(0)
-        if z3.is_true(k):
+    elif k == _K_NOT:
+        kc = _kind(e.arg(0))
+        if kc == _K_TRUE:
             return False
-        if z3.is_false(k):
+        if kc == _K_FALSE:
             return True
     return SymBool(e)
 
@@ -653,10 +660,23 @@ def _maxn(a, b):
     return None if a is None or b is None else max(a, b)
 
 
+_bvv_cache = {}
+
+
+def _bvv(v, w):
+    k = (v, w)
+    r = _bvv_cache.get(k)
+    if r is None:
+        if len(_bvv_cache) > 20000:
+            _bvv_cache.clear()
+        r = _bvv_cache[k] = z3.BitVecVal(v, w)
+    return r
+
+
 def _tw(a, w):
     if isinstance(a, SymInt):
         return a.tw(w)
-    return z3.BitVecVal(a, w)
+    return _bvv(a, w)
 
 
 def _lia(a):
@@ -1354,16 +1374,18 @@ class Explorer(object):
 
     # -- branching ----------------------------------------------------------------------
     def branch(self, cond):
-        if z3.is_true(cond):
+        k = _kind(cond)
+        if k == _K_TRUE:
             return True
-        if z3.is_false(cond):
+        if k == _K_FALSE:
             return False
         # path-local memo: a condition decided once on this path stays decided (the path condition only grows)
         neg = False
         base = cond
-        while z3.is_not(base):
+        while k == _K_NOT:
             base = base.arg(0)
             neg = not neg
+            k = _kind(base)
         key = base.get_id()
         hit = self.bcache.get(key)
         if hit is not None:
